@@ -1,6 +1,7 @@
 import Driver.Util
 import SymbolVerif.Model.Lint.Regex
 import SymbolVerif.Model.Lint.LineRules
+import SymbolVerif.Model.Lint.Deps
 import SymbolVerif.Model.Hash.Sha1
 import SymbolVerif.Generated.LintTables
 namespace Driver.C19
@@ -17,6 +18,11 @@ def bits (l : List Bool) : String := String.ofList (l.map fun b => if b then '1'
 
 def copyrightOk (header : List Char) : Bool :=
   Bytes.toHex (Hash.sha1 (String.ofList header).toUTF8.toList) == SymbolVerif.Generated.Lint.copyrightSha1Hex
+
+/-- the closed rules of the working tree's deps.config -/
+def closedRules : List (List Char × List (List Char)) :=
+  ((Deps.processDefines SymbolVerif.Generated.Lint.depsDefines SymbolVerif.Generated.Lint.depsLines).bind
+    Deps.processRules).getD []
 
 def ruleOut : Rule → String
   | .wsLineEnding => "wsLineEnding" | .wsSpacesStart => "wsSpacesStart" | .wsTabsEmpty => "wsTabsEmpty"
@@ -62,6 +68,14 @@ def handle : Handler
     let c ← charsArg content
     let cfg : Config := ⟨h, SymbolVerif.Generated.Lint.lineLengthLimit, copyrightOk, typoRegexes⟩
     pure (reportsOut (lint cfg (splitLines c)))
+  -- allowedrow <source directory> <dest,dest,...>: one character per destination (`DepsChecker.match`)
+  | "allowedrow", [src, dests] => do
+    let s ← charsArg src
+    let ds ← listArg charsArg dests
+    -- rules whose source matches the source directory, once per row
+    let mine := closedRules.filter fun (p, _) => fullMatch (Deps.compileName p) s
+    pure (bits (ds.map fun d => Deps.allowed Deps.compileName mine s d))
+  | "closedcount", [] => pure (toString closedRules.length)
   | "spaces", [] =>
     pure (natsOut ((List.range 0x3100).filter fun n => isSpace (Char.ofNat n)))
   | _, _ => none
